@@ -359,7 +359,8 @@ def body_c15(tier, seed, rep, only_prop=False, scale=1):
                     if d[0] == d[1] or r[0] == r[1]:
                         continue
                     lo, hi = min(d), max(d)
-                    for t in (d[0], d[1], rng.randint(lo, hi)):
+                    w = max(1, (hi - lo) // 3)
+                    for t in (d[0], d[1], rng.randint(lo, hi), max(LO, lo - w), min(HI, hi + w)):      # also instants OUTSIDE the domain: an unclamped scale (and every copy of it) extends the same line
                         y = s(to_dt(t))
                         tinv = to_ms(s.invert(y))
                         lines.append("tscale|%d|%d|%s|%s|%d|%s|%s" % (d[0], d[1], fr(r[0]), fr(r[1]), t, fr(y), fr(tinv)))
